@@ -41,3 +41,7 @@ pub trait NtpClock: Clone + Send + 'static {
     // the clocks synchronization status.
     fn status_update(&self, leap_status: NtpLeapIndicator) -> Result<(), Self::Error>;
 }
+
+#[cfg(feature = "pendulum_project_ntpd_rs_verif")]
+#[path = "/verif/hooks/ntp-proto/clock.rs"]
+pub mod verif_hooks;
